@@ -464,6 +464,7 @@ const strTheory = `
 (assert (forall ((s Str) (a Int) (b Int)) (! (=> (and (<= 0 a) (<= a b) (<= b (slen s))) (= (slen (ssub s a b)) (- b a))) :pattern ((ssub s a b)))))
 (assert (forall ((s Str) (a Int) (b Int) (i Int)) (! (=> (and (<= 0 a) (<= a b) (<= b (slen s)) (<= 0 i) (< i (- b a))) (= (sat (ssub s a b) i) (sat s (+ a i)))) :pattern ((sat (ssub s a b) i)))))
 (assert (forall ((s Str)) (! (= (ssub s 0 (slen s)) s) :pattern ((ssub s 0 (slen s))))))
+(assert (forall ((s Str) (a Int) (b Int) (c Int) (d Int)) (! (=> (and (<= 0 a) (<= a b) (<= b (slen s)) (<= 0 c) (<= c d) (<= d (- b a))) (= (ssub (ssub s a b) c d) (ssub s (+ a c) (+ a d)))) :pattern ((ssub (ssub s a b) c d)))))
 (assert (forall ((a Str) (b Str)) (! (= (slen (scat a b)) (+ (slen a) (slen b))) :pattern ((scat a b)))))
 (assert (forall ((a Str) (b Str) (i Int)) (! (=> (and (<= 0 i) (< i (+ (slen a) (slen b)))) (= (sat (scat a b) i) (ite (< i (slen a)) (sat a i) (sat b (- i (slen a)))))) :pattern ((sat (scat a b) i)))))
 (assert (forall ((a Str)) (! (= (scat a sempty) a) :pattern ((scat a sempty)))))
@@ -500,6 +501,7 @@ const seqTemplate = `
 (assert (forall ((s @S) (a Int) (b Int)) (! (=> (and (<= 0 a) (<= a b) (<= b (len_@ s))) (= (len_@ (sub_@ s a b)) (- b a))) :pattern ((sub_@ s a b)))))
 (assert (forall ((s @S) (a Int) (b Int) (i Int)) (! (=> (and (<= 0 a) (<= a b) (<= b (len_@ s)) (<= 0 i) (< i (- b a))) (= (at_@ (sub_@ s a b) i) (at_@ s (+ a i)))) :pattern ((at_@ (sub_@ s a b) i)))))
 (assert (forall ((s @S)) (! (= (sub_@ s 0 (len_@ s)) s) :pattern ((sub_@ s 0 (len_@ s))))))
+(assert (forall ((s @S) (a Int) (b Int) (c Int) (d Int)) (! (=> (and (<= 0 a) (<= a b) (<= b (len_@ s)) (<= 0 c) (<= c d) (<= d (- b a))) (= (sub_@ (sub_@ s a b) c d) (sub_@ s (+ a c) (+ a d)))) :pattern ((sub_@ (sub_@ s a b) c d)))))
 (assert (forall ((a @S) (b @S)) (! (= (len_@ (cat_@ a b)) (+ (len_@ a) (len_@ b))) :pattern ((cat_@ a b)))))
 (assert (forall ((a @S) (b @S) (i Int)) (! (=> (and (<= 0 i) (< i (+ (len_@ a) (len_@ b)))) (= (at_@ (cat_@ a b) i) (ite (< i (len_@ a)) (at_@ a i) (at_@ b (- i (len_@ a)))))) :pattern ((at_@ (cat_@ a b) i)))))
 (assert (forall ((a @S)) (! (= (cat_@ a nil_@) a) :pattern ((cat_@ a nil_@)))))
